@@ -32,8 +32,7 @@ def region_facts(body, blocks):
     return aggs, casts
 
 
-def r1(ctx):
-    rule = "C15.R1"
+def r1(ctx, rule="C15.R1"):
     ctx.rule(rule, "extensible -> 64 bit: every RustType built by asn_extensible_integer_to_rust is U64 or I64 with the extensible flag set")
     P = ctx.program()
     bs = [b for b in P.find("asn1rs_model", "::asn_extensible_integer_to_rust") if b.def_kind == "AssocFn"]
@@ -63,7 +62,7 @@ def r1(ctx):
         ctx.fail(rule, "extensible-flag", "the Range of an extensible INTEGER is built with extensible = %s" % noflag[0][1], noflag[0][2], detail)
     else:
         ctx.ok(rule, "asn_extensible_integer_to_rust", detail)
-    ctx.floor(rule, len(built), "C15.R1.constructors")
+    ctx.floor(rule, len(built), rule + ".constructors")
     # unsigned only between non-negative bounds: every path to a (guard-selected) U64 construction takes the true edge of
     # `min >= 0` *and* of `max >= 0` - the lower bound may be absent (MIN), then only the upper bound says that the values are negative
     u64_blocks = set()
@@ -504,3 +503,6 @@ def run(ctx):
     r5(ctx)
     r6(ctx)
     r7(ctx)
+    # the Range handed to the constraint writer keeps the marker of the chosen type (shared with C02 / C06 / C08)
+    from .c02 import r5 as rebuilders_keep_the_marker
+    rebuilders_keep_the_marker(ctx, rule="C15.R8")
